@@ -252,7 +252,7 @@ func (c c15Case) String() string {
 
 var c15RecvMutations = []string{"nothing", "garbage-control", "garbage-data", "unknown-type", "second-header", "dup-filebegin", "fileend-unknown", "chunk-unknown-file",
 	"chunk-len-0", "chunk-len-big", "chunk-index-big", "datastreams-0", "datastreams-65535", "filebegin-chunksize-0", "filebegin-huge-chunksize", "filebegin-size-mismatch",
-	"resume-unknown", "creditbatch-huge", "manifest-len-huge", "bad-crc", "truncated-record", "end-early", "chunk-for-empty-file", "fileend-dup-then-more"}
+	"resume-unknown", "creditbatch-huge", "manifest-len-huge", "bad-crc", "truncated-record", "end-early", "chunk-for-empty-file", "fileend-dup-then-more", "filebegin-hashalg-on-prior-state"}
 var c15SendMutations = []string{"nothing", "garbage-control", "unknown-type", "filedone-unknown", "filedone-dup", "resumeinfo-huge-bitmap", "resumeinfo-short-bitmap", "resumeinfo-wrong-total",
 	"resumeinfo-wrong-id", "creditbatch-huge", "filebegin-from-receiver", "truncated-record", "close-early"}
 
@@ -290,6 +290,19 @@ func c15RunReceiver(c c15Case, dir string) c15Result {
 	a, b := verifkit.NewMemPair(verifkit.MemOptions{Tap: tap})
 	items := []manifest.FileItem{{RelPath: "d", IsDir: true, ID: "d0"}, {RelPath: "d/f1.bin", Size: 40, ID: "00000000000000f1"}, {RelPath: "f2.bin", Size: 0, ID: "00000000000000f2"}, {RelPath: "f3.bin", Size: 25, ID: "00000000000000f3"}}
 	m := manifest.Manifest{Root: "r", Items: items, FileCount: 3, FolderCount: 1, TotalBytes: 65}
+	if c.Mutation == "filebegin-hashalg-on-prior-state" {
+		// the output directory holds the state of an interrupted earlier attempt for f3.bin (one
+		// of two chunks recorded): the receiver will hash that chunk with whatever algorithm
+		// the peer's FileBegin names
+		c.Resume = true
+		os.WriteFile(filepath.Join(out, "f3.bin"), verifkit.Content(25, 25), 0644)
+		sp := SidecarPath(out, "", "00000000000000f3")
+		os.MkdirAll(filepath.Dir(sp), 0755)
+		if sc, err := CreateSidecar(sp, "00000000000000f3", 25, 16); err == nil {
+			sc.MarkComplete(0)
+			sc.Flush()
+		}
+	}
 	ctx, cancel := context.WithTimeout(context.Background(), 20*time.Second)
 	defer cancel()
 	done := make(chan error, 1)
@@ -428,6 +441,11 @@ func c15RunReceiver(c c15Case, dir string) c15Result {
 		if c.Mutation != "filebegin-size-mismatch" {
 			dataStream().Write(frame(fb.StreamID, 0, 4, crc32Checksum([]byte("abcd")), []byte("abcd")))
 		}
+	case "filebegin-hashalg-on-prior-state":
+		alg := []byte{3, 4, 5, 255, 2, 0, 128, 3}[c.Arg%8]
+		w := &vBufStream{}
+		writeFileBegin(w, FileBegin{RelPath: "f3.bin", FileSize: 25, ChunkSize: 16, StreamID: fileKeyForItem(items[3]), HashAlg: alg})
+		ctl.Write(w.W.Bytes())
 	case "resume-unknown":
 		w := &vBufStream{}
 		writeResumeRequest(w, ResumeRequest{FileID: "nope", StreamID: c.Arg})
